@@ -617,6 +617,7 @@ registry of active breakpoints is empty (its text no longer exists) -/
 structure GInv (orig : Code) (s : St) : Prop where
   live : s.status ≠ .exited → Inv orig s
   dead : s.status = .exited → s.active = []
+  idxLe : s.idx ≤ s.τ.length
 
 /-- hypothesis-free part: the loop of `continue_execution` keeps the invariant and only moves forward -/
 theorem traceLoop_ginv {orig} (ho : Bytes orig) : ∀ (fuel : Nat) (s : St), Inv orig s → s.status ≠ .exited →
@@ -625,7 +626,7 @@ theorem traceLoop_ginv {orig} (ho : Bytes orig) : ∀ (fuel : Nat) (s : St), Inv
     (traceLoop fuel s).1.idx ≤ s.τ.length := by
   intro fuel
   induction fuel with
-  | zero => intro s h hs; exact ⟨⟨fun _ => h, fun e => absurd e hs⟩, rfl, rfl, Nat.le_refl _, h.idxLe⟩
+  | zero => intro s h hs; exact ⟨⟨fun _ => h, fun e => absurd e hs, h.idxLe⟩, rfl, rfl, Nat.le_refl _, h.idxLe⟩
   | succ f ih =>
     intro s h hs
     have h1 := run_inv h
@@ -635,14 +636,15 @@ theorem traceLoop_ginv {orig} (ho : Bytes orig) : ∀ (fuel : Nat) (s : St), Inv
     | none =>
       rw [traceLoop_exit f s hp]
       obtain ⟨o1, o2, o3, o4, o5, _⟩ := onExit_spec (run s)
-      refine ⟨⟨fun hne => absurd o2 hne, fun _ => o1⟩, o3, o5, ?_, ?_⟩
+      refine ⟨⟨fun hne => absurd o2 hne, fun _ => o1, ?_⟩, o3, o5, ?_, ?_⟩
+      · rw [o4, o3]; exact h1.idxLe
       · rw [o4]; exact hge
       · rw [o4]; exact h1.idxLe
     | some p =>
       cases hf : find? (run s).active p with
       | none =>
         rw [traceLoop_corrupt f s p hp hf]
-        exact ⟨⟨fun _ => h1, fun e => absurd (hst ▸ e) hs⟩, rfl, rfl, hge, h1.idxLe⟩
+        exact ⟨⟨fun _ => h1, fun e => absurd (hst ▸ e) hs, h1.idxLe⟩, rfl, rfl, hge, h1.idxLe⟩
       | some b =>
         by_cases hk : b.kind = .entry
         · rw [traceLoop_entry f s p b hp hf hk]
@@ -653,7 +655,7 @@ theorem traceLoop_ginv {orig} (ho : Bytes orig) : ∀ (fuel : Nat) (s : St), Inv
           · rw [e3] at g6; omega
           · rw [g2, e2] at r5; exact r5
         · rw [traceLoop_stop f s p b hp hf hk]
-          exact ⟨⟨fun _ => h1, fun e => absurd (hst ▸ e) hs⟩, rfl, rfl, hge, h1.idxLe⟩
+          exact ⟨⟨fun _ => h1, fun e => absurd (hst ▸ e) hs, h1.idxLe⟩, rfl, rfl, hge, h1.idxLe⟩
 
 
 /-! ### 5. prompt states with a running debuggee -/
@@ -1270,6 +1272,120 @@ theorem exec_start_fresh {orig entry B s} (ho : Bytes orig) (h : Fresh orig entr
     simp only [exec, h.st]
   rw [e]
   exact start_fresh ho h.pokes hcc hhead
+
+
+/-! ### 7. every command keeps the global invariant (no hypothesis on the trace, the entry point or the ops) -/
+
+theorem GInv.congr {orig s s'} (h : GInv orig s) (hc : s'.code = s.code) (ha : s'.active = s.active)
+    (hi : s'.idx = s.idx) (hτ : s'.τ = s.τ) (hs : s'.status = s.status) : GInv orig s' :=
+  ⟨fun hne => (h.live (hs ▸ hne)).congr hc ha hi hτ, fun he => ha.trans (h.dead (hs ▸ he)),
+   by rw [hi, hτ]; exact h.idxLe⟩
+
+theorem removeByAddr_ginv {orig s} (ho : Bytes orig) (h : GInv orig s) (a : Addr) :
+    GInv orig (removeByAddr s ⟨false, a⟩).1 ∧ (removeByAddr s ⟨false, a⟩).1.τ = s.τ ∧
+    (removeByAddr s ⟨false, a⟩).1.exitCode = s.exitCode ∧ (removeByAddr s ⟨false, a⟩).1.idx = s.idx ∧
+    (removeByAddr s ⟨false, a⟩).1.status = s.status := by
+  by_cases hk : hasKey s.uninit ⟨false, a⟩ = true
+  · rw [removeByAddr_uninit s _ hk]
+    exact ⟨h.congr rfl rfl rfl rfl rfl, rfl, rfl, rfl, rfl⟩
+  · have hk' : hasKey s.uninit ⟨false, a⟩ = false := Bool.eq_false_iff.mpr hk
+    cases hf : find? s.active a with
+    | none => rw [removeByAddr_none s a hk' hf]; exact ⟨h, rfl, rfl, rfl, rfl⟩
+    | some b =>
+      have hne : s.status ≠ .exited := by
+        intro he; rw [h.dead he] at hf; cases hf
+      obtain ⟨_, r2, r3, _, _⟩ := removeByAddr_some (h.live hne) ho a b hk' hf
+      refine ⟨⟨fun _ => r3, fun he => absurd (r2.status ▸ he) hne, r3.idxLe⟩, r2.τ, r2.exitCode, r2.idx, r2.status⟩
+
+theorem enableEntry_inv {orig s} (ho : Bytes orig) (h : Inv orig s) :
+    Inv orig (enableEntry s) ∧ (enableEntry s).τ = s.τ ∧ (enableEntry s).exitCode = s.exitCode ∧
+    (enableEntry s).idx = s.idx ∧ (enableEntry s).status = s.status := by
+  unfold enableEntry
+  cases s.uninit.find? (·.2 == Kind.entry) with
+  | none => exact ⟨h, rfl, rfl, rfl, rfl⟩
+  | some u =>
+    have h' : Inv orig { s with uninit := s.uninit.filter (·.1 != u.1) } := h.congr rfl rfl rfl rfl
+    have hf := addAndEnable_frame { s with uninit := s.uninit.filter (·.1 != u.1) } { addr := u.1.addr, kind := .entry }
+    exact ⟨addAndEnable_inv h' ho _, hf.τ, hf.exitCode, hf.idx, hf.status⟩
+
+/-- every command keeps the invariant and only moves forward along the trace -/
+theorem exec_ginv {orig s} (ho : Bytes orig) (h : GInv orig s) (op : Op) :
+    GInv orig (exec s op).1 ∧ (exec s op).1.τ = s.τ ∧ (exec s op).1.exitCode = s.exitCode ∧
+    s.idx ≤ (exec s op).1.idx := by
+  have h0 : GInv orig { s with pokes := [] } := h.congr rfl rfl rfl rfl rfl
+  cases op with
+  | brk a =>
+    cases hs : s.status with
+    | inProgress =>
+      have e : exec s (.brk a) = (addAndEnable { s with pokes := [] } { addr := a, kind := .user }, .ok) := by
+        simp only [exec, hs]
+      rw [e]
+      have hinv : Inv orig { s with pokes := [] } := h0.live (by show s.status ≠ _; rw [hs]; decide)
+      have hf := addAndEnable_frame { s with pokes := [] } { addr := a, kind := .user }
+      have hi := addAndEnable_inv hinv ho { addr := a, kind := .user }
+      have hst : (addAndEnable { s with pokes := [] } { addr := a, kind := .user }).status = .inProgress :=
+        hf.status.trans hs
+      exact ⟨⟨fun _ => hi, fun he => (by rw [hst] at he; cases he), hi.idxLe⟩, hf.τ, hf.exitCode,
+        Nat.le_of_eq hf.idx.symm⟩
+    | unload =>
+      have e : exec s (.brk a) = (addUninit { s with pokes := [] } ⟨false, a⟩ .user, .ok) := by
+        simp only [exec, hs]
+      rw [e]; exact ⟨h.congr rfl rfl rfl rfl rfl, rfl, rfl, Nat.le_refl _⟩
+    | exited =>
+      have e : exec s (.brk a) = (addUninit { s with pokes := [] } ⟨false, a⟩ .user, .ok) := by
+        simp only [exec, hs]
+      rw [e]; exact ⟨h.congr rfl rfl rfl rfl rfl, rfl, rfl, Nat.le_refl _⟩
+  | remove a =>
+    rw [exec_remove_eq]
+    obtain ⟨r1, r2, r3, r4, _⟩ := removeByAddr_ginv ho h0 a
+    exact ⟨r1, r2, r3, Nat.le_of_eq r4.symm⟩
+  | start =>
+    cases hs : s.status with
+    | unload =>
+      have e : exec s .start = traceLoop (fuelFor { s with pokes := [] })
+          (enableEntry { ({ s with pokes := [] } : St) with status := .inProgress }) := by
+        simp only [exec, hs]
+      rw [e]
+      have hinv : Inv orig { ({ s with pokes := [] } : St) with status := .inProgress } :=
+        (h.live (by rw [hs]; decide)).congr rfl rfl rfl rfl
+      obtain ⟨e1, e2, e3, e4, e5⟩ := enableEntry_inv ho hinv
+      obtain ⟨t1, t2, t3, t4, _⟩ := traceLoop_ginv ho (fuelFor { s with pokes := [] }) _ e1 (by rw [e5]; show Status.inProgress ≠ Status.exited; decide)
+      exact ⟨t1, t2.trans e2, t3.trans e3, by rw [e4] at t4; exact t4⟩
+    | inProgress =>
+      have e : exec s .start = ({ s with pokes := [] }, .err) := by simp only [exec, hs]
+      rw [e]; exact ⟨h0, rfl, rfl, Nat.le_refl _⟩
+    | exited =>
+      have e : exec s .start = ({ s with pokes := [] }, .err) := by simp only [exec, hs]
+      rw [e]; exact ⟨h0, rfl, rfl, Nat.le_refl _⟩
+  | cont =>
+    cases hs : s.status with
+    | inProgress =>
+      have e : exec s .cont = traceLoop (fuelFor { s with pokes := [] })
+          (stepOverBreakpoint { s with pokes := [] }) := by
+        simp only [exec, hs]
+      rw [e]
+      have hinv : Inv orig { s with pokes := [] } := h0.live (by show s.status ≠ _; rw [hs]; decide)
+      obtain ⟨g1, g2, g3, g4, _, g6⟩ := stepOver_gen hinv ho
+      obtain ⟨t1, t2, t3, t4, _⟩ := traceLoop_ginv ho (fuelFor { s with pokes := [] }) _ g1
+        (by rw [g3]; show s.status ≠ _; rw [hs]; decide)
+      exact ⟨t1, t2.trans g2, t3.trans g4, Nat.le_trans g6 t4⟩
+    | unload =>
+      have e : exec s .cont = ({ s with pokes := [] }, .err) := by simp only [exec, hs]
+      rw [e]; exact ⟨h0, rfl, rfl, Nat.le_refl _⟩
+    | exited =>
+      have e : exec s .cont = ({ s with pokes := [] }, .err) := by simp only [exec, hs]
+      rw [e]; exact ⟨h0, rfl, rfl, Nat.le_refl _⟩
+
+theorem init_ginv (τ : List Addr) (entry : Addr) (orig : Code) (x : Nat) : GInv orig (init τ entry orig x) := by
+  refine ⟨fun _ => ⟨fun a => rfl, ?_, List.nodup_nil, ?_, Nat.zero_le _⟩, fun _ => rfl, Nat.zero_le _⟩
+  · intro b hb; cases hb
+  · intro b hb; cases hb
+
+theorem init_fresh (τ : List Addr) (entry : Addr) (orig : Code) (x : Nat) :
+    Fresh orig entry [] (init τ entry orig x) := by
+  refine ⟨rfl, rfl, rfl, rfl, List.mem_singleton.mpr rfl, ?_, ?_⟩
+  · intro u hu; exact Or.inl (List.mem_singleton.mp hu)
+  · intro a; simp [hasKey, init]
 
 
 end BsVerif.Bp
